@@ -386,6 +386,14 @@ func (e *CErr) Unwrap() error { return e.Cause }
 
 var ptrErrType = reflect.TypeOf((*CErr)(nil))
 
+// SErr is an error type of slice kind (a list of field errors).
+type SErr []error
+
+func (e SErr) Error() string   { return fmt.Sprintf("serr: %v", []error(e)) }
+func (e SErr) Unwrap() []error { return e }
+
+var sliceErrType = reflect.TypeOf(SErr(nil))
+
 // FuncType returns the constructor signature for a registration.
 func FuncType(r *Reg) reflect.Type {
 	var in, out []reflect.Type
@@ -410,7 +418,9 @@ func FuncType(r *Reg) reflect.Type {
 		out = []reflect.Type{OutStructType(r.Outs)}
 	case FormVoid:
 	}
-	if r.HasErr && r.PtrErr {
+	if r.HasErr && r.SliceErr {
+		out = append(out, sliceErrType)
+	} else if r.HasErr && r.PtrErr {
 		out = append(out, ptrErrType)
 	} else if r.HasErr {
 		out = append(out, ErrorType)
@@ -594,7 +604,9 @@ func (w *World) invoke(r *Reg, ft reflect.Type, args []reflect.Value) []reflect.
 		if r.HasErr {
 			inv.Outcome = 2
 			inv.EndSeq = w.NextSeq()
-			if r.PtrErr {
+			if r.SliceErr {
+				res[nout-1] = reflect.ValueOf(SErr{f.Err})
+			} else if r.PtrErr {
 				res[nout-1] = reflect.ValueOf(&CErr{Cause: f.Err})
 			} else {
 				res[nout-1] = reflect.ValueOf(&f.Err).Elem()
